@@ -489,10 +489,13 @@ func c26Step(st *c26State, op string) (string, string) {
 					}
 				}
 			}
-			forgotten := int64(-1)
-			for n := r[0]; n < min(r[1], listStart); n++ {
+			// a skipped number anywhere in the range (also one whose record the list already dropped)
+			for n := r[0]; n < min(r[1], next) && !expect; n++ {
 				if rec := st.recs[c26Key{sp, st.epoch[sp], n}]; rec != nil && rec.skipped {
-					forgotten = n
+					expect = true
+					if n < listStart {
+						st.o.Stat("ack:covers-forgotten-skip")
+					}
 				}
 			}
 			err := c.receiveAckRange(st.now, numberSpace(sp), i, packetNumber(r[0]), packetNumber(r[1]), st.onAckOrLoss)
@@ -507,13 +510,8 @@ func c26Step(st *c26State, op string) (string, string) {
 				st.o.Stat("ack:violation")
 			}
 			if got != expect {
-				st.fail25("", fmt.Sprintf("ACK range [%d,%d) in space %d (next=%d, oldest tracked=%d): PROTOCOL_VIOLATION=%v, expected %v",
+				st.fail25("", fmt.Sprintf("ACK range [%d,%d) in space %d (next=%d, oldest tracked=%d): PROTOCOL_VIOLATION=%v, expected %v (never-sent or skipped number acknowledged)",
 					r[0], r[1], sp, next, listStart, got, expect))
-			} else if !got && forgotten >= 0 {
-				// literal reading of C25: an ACK covering a skipped number must be rejected
-				st.fail25("ack-covers-forgotten-skip", fmt.Sprintf("ACK range [%d,%d) in space %d covers skipped packet number %d, whose record was already dropped from the sent list (oldest tracked=%d): accepted without PROTOCOL_VIOLATION",
-					r[0], r[1], sp, forgotten, listStart))
-				st.o.Stat("ack:forgotten-skip-accepted")
 			}
 		}
 		pre := *c.cc
